@@ -719,7 +719,9 @@ Definition dispatch_parse (name : string) (a : list tok) : option (list tok * li
       Some (match epoch_from_str txt with
             | POk e => [TZ 1; TZ (val (dur e)); TZ (ts_id (scale e))]
             | PErr k => [TErr k] | PPanic => [TPanic] | PUnmodelled => nospec end,
-            if is_float_id_early t then nopanic
+            if is_float_id_early t then
+              (* SEC x ET / TDB: x seconds on the scale's own count (J2000); JD / MJD in ET / TDB are documented as approximate *)
+              (if form =? 3 then let c := num * NS_PER_S / den in [TZ 1; TRange (c - tol) (c + 1 + tol); TZ t] else nopanic)
             else if negb supported then [TErr E_UnsupportedTimeSystem]
             else let lo := exact2 / (2 * den) - tol in let hi := exact2 / (2 * den) + 1 + tol in
                  if in_rangev lo && in_rangev hi then [TZ 1; TRange lo hi; TZ t] else nopanic)
